@@ -62,6 +62,10 @@ def classify(body, bb, t):
     if call_matches(t, ['blocks::BlockWriter::<\'r, \'c, \'s, W>::new']):
         return ('BLOCKS',)
     c = strip_generics(cname(t))
+    if c.endswith('BlockWriter::signal_next_record'):
+        return ('BLOCKSTEP',)
+    if c.endswith('BlockWriter::end'):
+        return ('BLOCKEND',)
     if c.startswith('ser::serializer::seq_or_tuple::SerializeSeqOrTupleOrTupleStruct::'):
         return ('SEQ', c.rsplit('::', 1)[1])
     if c.startswith('ser::serializer::struct_or_map::SerializeMapAsRecordOrMapOrDuration::') or \
@@ -83,11 +87,17 @@ def classify(body, bb, t):
     return None
 
 
-def region_tokens(body, blocks, facts):
-    """[(token, body, bb, term)] for the region, descending into closures built in it"""
+def region_tokens(body, blocks, facts, _depth=0):
+    """[(token, body, bb, term)] for the region, descending into closures built in it and into private helpers
+    that take the serializer state"""
     out = []
     for b, bb, t in calls_in(body, blocks, facts):
         tok = classify(b, bb, t)
+        if tok is not None and tok[0] == 'UNCLASSIFIED' and _depth < 2:
+            cb = facts.bodies.get(cname(t))
+            if cb is not None and (cb.id.startswith('ser::') or cb.id.startswith('<ser::')) and cb is not body:
+                out.extend(region_tokens(cb, cb.live_blocks(), facts, _depth + 1))
+                continue
         if tok is not None:
             out.append((tok, b, bb, t))
     return out
